@@ -20,6 +20,9 @@ CHECKS = {
  "C18": (MC, "explicit-state breadth-first search with state matching over operation histories on the real switch (replay-based), reference dict of outstanding buffers",
          "Every reachable state within <=6 (quick) / <=8 (thorough) operations {miss, send-to-controller flows with 3 max_len values, packet_out/flow_mod with live, stale and bogus buffer ids, set_config} for pool sizes 0..3 / 0..4 is expanded once; uniqueness, content, release-once, capacity and packet-in length rules are checked on every transition.",
          "State key = whole buffer pool + config + model, so merging is sound; frames use an opaque ethertype; trusts mc/refs/ofwire.py.", "DESIGN.md 4 C18"),
+ "C04": (MC, "explicit-state breadth-first search with state matching over FLOW_MOD / traffic / clock / sweep histories on the real switch, table read back over the wire after every step and compared with a reference state machine",
+         "Every table state reachable within <=3 (quick) / <=4 (thorough) operations from the empty table, and one operation less from two populated tables, over 60+ operations (all five commands, CHECK_OVERLAP, SEND_FLOW_REM with idle/hard timeouts, EMERG, out_port filters, two frames, virtual clock, sweep) is expanded once; installed entries, counters, durations, emitted flow-removed/error/packet-in messages and table order are compared with mc/refs/reftable.py on every transition.",
+         "Trusts the reference state machine (written from OpenFlow 1.0 sections 3.4/4.6) and the wire decoder; clock steps avoid exact timeout boundaries; equal-priority overlapping lookups may return either entry.", "DESIGN.md 4 C04"),
 }
 
 PENDING_REASON = "check under construction in this round (design in DESIGN.md section 4); not claimed until its harness is committed and silent on the unchanged tree"
